@@ -489,10 +489,43 @@ Definition store_intact (store : list sfile) (msgs : list str) : bool :=
     | _ => false
     end) store.
 
-Definition fetch_verdict (store : list sfile) msgs ids qs : N :=
+(* Y1 (W1 'fetch completeness'): second clause next to [query_verdict] (which Cxx_Audit2 speaks about and which
+   accepts QNotFound unconditionally).  "Fetching by number and id from a one-block store returns that block or
+   not-found" is read with its second half meaning what it says: NOT-FOUND ONLY WHEN THE BLOCK IS NOT THERE.  The
+   answer not-found is rejected when some stored file is intact (header, exactly one message, that message is
+   the clean message of a stored block, end of file), carries a block of exactly the requested number, and the
+   16-byte truncation of that block's id is a suffix of the requested id.  Stated from the harness's own record
+   of what it stored ([ids] runs parallel to [store]: entry i is the (number, id) of the block written into file
+   i), not from the file names and not through the model's listing.  A stored block whose truncated id contains
+   '-' is not counted: its name parses to other segments (the name_ok restriction of the property's name clause;
+   the fetch generator draws hexadecimal ids only). *)
+Definition sfile_intact (msgs : list str) (f : sfile) : bool :=
+  match read_file (fun m => Some m) (sf_data f) with
+  | (Some _, [m], OEOF) => match find_msg msgs m 0 with Some _ => true | None => false end
+  | _ => false
+  end.
+
+Fixpoint stored_match (msgs : list str) (store : list sfile) (ids : list (N * str)) (num : N) (id : str) : bool :=
+  match store, ids with
+  | f :: sr, (n, bid) :: ir =>
+      ((n =? num) && has_suffix id (truncate_id bid) && negb (memN dash (truncate_id bid)) && sfile_intact msgs f)
+      || stored_match msgs sr ir num id
+  | _, _ => false
+  end.
+
+Definition query_complete_y1 (store : list sfile) (msgs : list str) (ids : list (N * str)) (q : query) : bool :=
+  match q_res q with
+  | QNotFound => negb (stored_match msgs store ids (q_num q) (q_id q))
+  | _ => true
+  end.
+
+Definition query_verdict_y1 (store : list sfile) msgs ids (damaged : bool) (q : query) : N :=
   let st := map (fun f => (sf_name f, sf_data f)) store in
+  N.lor (query_verdict st msgs ids damaged q) (if query_complete_y1 store msgs ids q then 0 else 2).
+
+Definition fetch_verdict (store : list sfile) msgs ids qs : N :=
   let damaged := negb (store_intact store msgs) in
-  agg (map (query_verdict st msgs ids damaged) qs) false false 0.
+  agg (map (query_verdict_y1 store msgs ids damaged) qs) false false 0.
 
 Definition merged_query_verdict (nums : list N) (q : query) : N :=
   match q_res q with
@@ -505,6 +538,35 @@ Definition merged_query_verdict (nums : list N) (q : query) : N :=
       end
   | _ => 2
   end.
+
+(* Y1 (W1 'no Spec for the merged fetch'): second clause next to [merged_query_verdict] (which Cxx_Audit2 speaks about
+   and which reports a stored block that is answered not-found as a MISMATCH, code 1, i.e. never with a concrete
+   replay).  "Fetching by number from a merged-blocks store returns a block of the requested height or not-found",
+   with not-found meaning what it says.  Given the bundle contents [nums] (the numbers of the blocks written into the
+   one bundle file, position = clean block index), for EVERY queried number:
+     complete  not-found is rejected when a block of the bundle has that number (also the first and the last one);
+     exact     a found answer is clean block i (the harness reports IRef i only after proto.Equal with the stored
+               block), i is the FIRST position holding that number, and the number is the requested one; a number
+               that no block of the bundle has (a gap, a number beyond the last block, a number of another bundle)
+               must be answered not-found;
+     an error or an empty result is never acceptable on an undamaged bundle. *)
+Fixpoint first_index (nums : list N) (n : N) (i : N) : option N :=
+  match nums with
+  | [] => None
+  | x :: r => if x =? n then Some i else first_index r n (i + 1)
+  end.
+
+Definition merged_exact_y1 (nums : list N) (q : query) : bool :=
+  match q_res q, first_index nums (q_num q) 0 with
+  | QPanic, _ | QHang, _ => true           (* code 4 comes from merged_query_verdict *)
+  | QNotFound, None => true
+  | QNotFound, Some _ => false
+  | QBlock (IRef i), Some j => i =? j
+  | _, _ => false
+  end.
+
+Definition merged_query_verdict_y1 (nums : list N) (q : query) : N :=
+  N.lor (merged_query_verdict nums q) (if merged_exact_y1 nums q then 0 else 2).
 
 (* ------------------------------------------------------------------ verdicts *)
 
@@ -519,7 +581,7 @@ Definition c16_verdict (k : c16_case) : N :=
       name_verdict num id parent lib suffix o_name o_tid o_tparent o_parsed panic
   | CParse s o_parsed o_re panic => parse_verdict s o_parsed o_re panic
   | CFetch store msgs ids qs => fetch_verdict store msgs ids qs
-  | CMerged nums qs => agg (map (merged_query_verdict nums) qs) false false 0
+  | CMerged nums qs => agg (map (merged_query_verdict_y1 nums) qs) false false 0
   end.
 
 Definition c16_verdicts (l : list c16_case) : list (N * N) := nonzero (map c16_verdict l).
